@@ -19,8 +19,13 @@ def refVEnc (r0 r1 r2 r3 : BitVec 32) (sk : BitVec 64) : BitVec 32 × BitVec 32 
   (b3 ^^^ (b2 ^^^ a0), a0, b1 ^^^ b2, b2 ^^^ a0)
 
 
+/-- the generated round body is the reference form: literally (fast path), or - after a rewrite of the C text that keeps the
+S-box circuit but reorders the linear part - bit by bit up to associativity / commutativity of xor -/
 theorem v128p_enc_round_ref (r0 r1 r2 r3 : BitVec 32) (sk : BitVec 64) : v128p_enc_round r0 r1 r2 r3 sk = refVEnc r0 r1 r2 r3 sk := by
-  simp only [v128p_enc_round, refVEnc, v128p_sbox, rotl32, gen_unfold]
+  first
+  | (simp only [v128p_enc_round, refVEnc, v128p_sbox, rotl32, gen_unfold]; done)
+  | (refine Prod.ext ?_ (Prod.ext ?_ (Prod.ext ?_ ?_)) <;>
+      (bv_bits 32 <;> ((try simp [v128p_enc_round, refVEnc, v128p_sbox, rotl32, gen_unfold]); (try ac_rfl))))
 
 
 /-- the vector decryption round, written with the inverse S-box leaf -/
@@ -32,7 +37,10 @@ def refVDec (r0 r1 r2 r3 : BitVec 32) (sk : BitVec 64) : BitVec 32 × BitVec 32 
    v128p_inv_sbox (rotl32 n2 16 ^^^ 0x2#32), v128p_inv_sbox (rotl32 n3 8))
 
 theorem v128p_dec_round_ref (r0 r1 r2 r3 : BitVec 32) (sk : BitVec 64) : v128p_dec_round r0 r1 r2 r3 sk = refVDec r0 r1 r2 r3 sk := by
-  simp only [v128p_dec_round, refVDec, v128p_inv_sbox, rotl32, gen_unfold]
+  first
+  | (simp only [v128p_dec_round, refVDec, v128p_inv_sbox, rotl32, gen_unfold]; done)
+  | (refine Prod.ext ?_ (Prod.ext ?_ (Prod.ext ?_ ?_)) <;>
+      (bv_bits 32 <;> ((try simp [v128p_dec_round, refVDec, v128p_inv_sbox, rotl32, gen_unfold]); (try ac_rfl))))
 
 syntax "vec_bits" num : tactic
 macro_rules
